@@ -31,17 +31,26 @@ type GBNConf struct {
 	PongC     time.Duration
 	PingS     time.Duration
 	PongS     time.Duration
-	Chunk     int           // max chunk size, 0 = off
-	Lat       time.Duration // one-way base latency
+	Chunk     int // max chunk size, 0 = off
+	// ChunkSrvSet gives the server its own maximum chunk size ChunkSrv (0 =
+	// off): the option is local to the sending side, the two ends need not
+	// agree on it.
+	ChunkSrvSet bool
+	ChunkSrv    int
+	Lat         time.Duration // one-way base latency
 }
 
 func (c GBNConf) String() string {
-	return fmt.Sprintf("N=%d static=%v resend=%v hs=%v mult=%d freq=%d boost=%.2f ping=%v/%v,%v/%v chunk=%d lat=%v",
+	chunk := fmt.Sprint(c.Chunk)
+	if c.ChunkSrvSet {
+		chunk = fmt.Sprintf("%d/%d", c.Chunk, c.ChunkSrv)
+	}
+	return fmt.Sprintf("N=%d static=%v resend=%v hs=%v mult=%d freq=%d boost=%.2f ping=%v/%v,%v/%v chunk=%s lat=%v",
 		c.N, c.Static, c.Resend, c.HSTimeout, c.Mult, c.Freq, c.Boost,
-		c.PingC, c.PongC, c.PingS, c.PongS, c.Chunk, c.Lat)
+		c.PingC, c.PongC, c.PingS, c.PongS, chunk, c.Lat)
 }
 
-func (c GBNConf) opts(ping, pong time.Duration) []gbn.Option {
+func (c GBNConf) opts(ping, pong time.Duration, chunk int) []gbn.Option {
 	var to []gbn.TimeoutOptions
 	if c.Static {
 		to = append(to, gbn.WithStaticResendTimeout(c.Resend))
@@ -62,17 +71,22 @@ func (c GBNConf) opts(ping, pong time.Duration) []gbn.Option {
 		to = append(to, gbn.WithKeepalivePing(ping, pong))
 	}
 	o := []gbn.Option{gbn.WithTimeoutOptions(to...)}
-	if c.Chunk > 0 {
-		o = append(o, gbn.WithMaxSendSize(c.Chunk))
+	if chunk > 0 {
+		o = append(o, gbn.WithMaxSendSize(chunk))
 	}
 	return o
 }
 
 // ClientOpts returns the gbn options of the client endpoint.
-func (c GBNConf) ClientOpts() []gbn.Option { return c.opts(c.PingC, c.PongC) }
+func (c GBNConf) ClientOpts() []gbn.Option { return c.opts(c.PingC, c.PongC, c.Chunk) }
 
 // ServerOpts returns the gbn options of the server endpoint.
-func (c GBNConf) ServerOpts() []gbn.Option { return c.opts(c.PingS, c.PongS) }
+func (c GBNConf) ServerOpts() []gbn.Option {
+	if c.ChunkSrvSet {
+		return c.opts(c.PingS, c.PongS, c.ChunkSrv)
+	}
+	return c.opts(c.PingS, c.PongS, c.Chunk)
+}
 
 // Pair is a connected client/server pair over two links.
 type Pair struct {
